@@ -566,11 +566,24 @@ def run(ctx):
     ctx.coverage["bounds"] = {"scenarios": len(scs), "errnos": [errno.errorcode[e] for e in ERRNOS], "pairs": "second errno EIO after first EIO" if ctx.quick else "all 25 errno pairs"}
     st = ctx.explore("faults", [(sc, ctx.quick) for sc in scs], check_scenario, chunk=1)
     st2 = ctx.explore("py_faults", [(sc, ctx.quick) for sc in scs], check_pyfaults, chunk=1)
-    ctx.coverage["executions"] = st.transitions + st2.transitions
+    # (o) the interruption is ANOTHER WRITE on the same path: two unconditional writers (no base_hash) as two processes, every interleaving
+    #     of their visible libc calls (state-merged graph, see C17); the file is always the complete text of the writer that installed last,
+    #     both succeed, nothing is left behind.  When two writers name the same temp file the graph is rebuilt with every call visible.
+    from . import c17 as _c17
+    groups = [["content:nobase", "content:nobase"], ["atomic:nobase", "atomic:nobase"], ["content:nobase", "atomic:nobase"]] + ([] if ctx.quick else [["content:nobase", "content:nobase", "fine"], ["changes:nobase", "normalize:nobase"]])
+    st3 = ctx.explore("overlapping_writers", groups, _c17.check_pair_res, chunk=1)
+    _c17._cleanup()
+    ctx.coverage["executions"] = st.transitions + st2.transitions + st3.transitions
     _cleanup()
 
 
 def replay(ctx, rp):
+    if "pair" in rp.get("case", {}):
+        from . import c17 as _c17
+        try:
+            return [v for v in _c17.check_pair(rp["case"]["pair"])[0].violations if v["descriptor"] == rp.get("descriptor")]
+        finally:
+            _c17._cleanup()
     c = rp["case"]
     try:
         r = check_pyfaults((c["scenario"], False)) if c.get("layer") == "python" else check_scenario((c["scenario"], False))
